@@ -459,6 +459,54 @@ def suite_fault(binf, tier, rng):
                     out["dist"]["tmp_left_after_failed_call(info)"] = out["dist"].get("tmp_left_after_failed_call(info)", 0) + 1
     return out
 
+def suite_fault_listing(binf, tier, rng):
+    """C10 in the states a failed call leaves behind: after every single fault of every mutating call, the listing and
+    the lookups of a fresh process agree — a key is listed iff a lookup finds it, with the same fields, once."""
+    out = {"runs": 0, "skipped": 0, "failures": [], "dist": {}}
+    errnos = ("EIO",) if tier == "quick" else ("EIO", "ENOSPC", "EACCES")
+    K, K2 = kx("k"), kx("other")
+    for name, setup, ops, targets, kind, key, data in fault_scenarios(binf, tier):
+        if kind not in ("write", "stream", "remove"):
+            continue
+        keys = sorted({K, K2} | ({key} if key else set()))
+        mk = make_state_fn(binf, setup)
+        for t in targets:
+            if ops[t]["op"] in ("open", "wchunk"):
+                continue
+            def after(cache, ext, C, errno, _binf=binf, _keys=keys):
+                return {"look": lookups(_binf, cache, ext, _keys, reads=False)}
+            res = T.fault_sweep(binf, mk, ops, t, errnos=errnos, after=after, jobs=8)
+            for r in res:
+                out["runs"] += 1
+                if not r["ok"]:
+                    out["skipped"] += 1; continue
+                look = r["after"]["look"]
+                tag = f"{name} / op {t} {ops[t]['op']} / {r['errno']} at {T.brief(r['call'])[:70]}"
+                rep = {"scenario": name, "flavour": binf, "setup": setup, "ops": ops, "target": t, "errno": r["errno"], "at": T.brief(r["call"])}
+                lst = look["list"]
+                if lst[0] != "ok" or any(i[0] == "err" for i in lst[2]):
+                    out["dist"]["listing reports an error"] = out["dist"].get("listing reports an error", 0) + 1
+                    continue
+                listed = {}
+                dup = None
+                for i in lst[2]:
+                    k = i[1]["key"]
+                    if k in listed: dup = k
+                    listed[k] = i[1]
+                if dup is not None:
+                    out["failures"].append({"concrete": True, "text": f"{tag}: the listing yields key {dup} twice", "replay": rep}); continue
+                for k in keys:
+                    m = look[("meta", k)]
+                    if m[0] != "ok":
+                        continue
+                    found = m[2]
+                    if (found is None) != (k not in listed):
+                        out["failures"].append({"concrete": True, "text": f"{tag}: after the failed call key {k} is {'listed' if k in listed else 'not listed'} but a lookup {'finds nothing' if found is None else 'finds it'}", "replay": rep}); break
+                    if found is not None and {x: found[x] for x in ("sri", "size", "time")} != {x: listed[k][x] for x in ("sri", "size", "time")}:
+                        out["failures"].append({"concrete": True, "text": f"{tag}: listed entry of {k} differs from the lookup: {str(listed[k])[:100]} vs {str(found)[:100]}", "replay": rep}); break
+                out["dist"][kind] = out["dist"].get(kind, 0) + 1
+    return out
+
 def suite_fault_retry(binf, tier, rng):
     """once the fault is gone the same call succeeds: failed call, then the same op again in the same process"""
     out = {"runs": 0, "skipped": 0, "failures": [], "dist": {}}
